@@ -51,9 +51,53 @@ def rdRtObs : Rd Pred.C13.RtObs := do
     pure { panicked := false, payloads := ps, views := vs, frames := fs, depack := ds }
   | _ => Rd.fail
 
+/-- the longest payload observed, but at least `mtu` -/
+def mtuOrLongest (mtu : Nat) (ps : List Bytes) : Nat := ps.foldr (fun p m => max p.length m) mtu
+
+/-- C13 as worded, on what the implementation did (the predicate the driver evaluates).  It is
+    `Pred.C13.rt` without what the statement of C13 does not say:
+    * that payloads fit the MTU (that is C08): `rulesOK` is evaluated at an MTU no payload exceeds, which
+      only switches off its length conjunct (the MTU occurs nowhere else in `rulesOK`);
+    * the Z/Y/W/N fields and the element split shown by the deprecated `AV1Packet` (`views` is not looked
+      at): the text only says that the deprecated path "reassembles the same OBUs";
+    * the form in which the frame assembler hands out the OBUs: without size fields (`normalise`) or with
+      them (`normaliseSized`) they are "the same OBUs".
+    Outside `rtWF` (the quantifier of C13) nothing is claimed: `wf = false` there, correspondence only. -/
+def rtRelaxed (mtu : Nat) (obus : List Obu) (o : Pred.C13.RtObs) : Bool :=
+  !o.panicked &&
+  (!Pred.C13.rtWF mtu obus ||
+    (rulesOK (mtuOrLongest mtu o.payloads) o.payloads &&
+     denote o.payloads == some (normalise obus) &&
+     (o.frames.flatten == normalise obus || o.frames.flatten == normaliseSized obus) &&
+     o.depack.length == o.payloads.length &&
+     (Pred.C13.okBytes o.depack).map List.flatten == some (normaliseSized obus).flatten))
+
+theorem le_mtuOrLongest (mtu : Nat) (ps : List Bytes) : mtu ≤ mtuOrLongest mtu ps := by
+  induction ps with
+  | nil => exact Nat.le_refl _
+  | cons p ps ih => exact Nat.le_trans ih (Nat.le_max_right _ _)
+
+theorem rulesOK_mono {m m' : Nat} (h : m ≤ m') (ps : List Bytes) :
+    rulesOK m ps = true → rulesOK m' ps = true := by
+  unfold rulesOK
+  simp only [Bool.and_eq_true, List.all_eq_true, decide_eq_true_eq]
+  rintro ⟨hl, hr⟩
+  exact ⟨fun p hp => Nat.le_trans (hl p hp) h, hr⟩
+
+/-- the theorems are about `Pred.C13.rt`; it implies what the driver evaluates -/
+theorem rt_imp_rtRelaxed (mtu : Nat) (obus : List Obu) (o : Pred.C13.RtObs) :
+    Pred.C13.rt mtu obus o = true → rtRelaxed mtu obus o = true := by
+  unfold Pred.C13.rt rtRelaxed
+  simp only [Bool.and_eq_true, Bool.or_eq_true]
+  rintro ⟨hp, h⟩
+  refine ⟨hp, ?_⟩
+  rcases h with h | ⟨⟨⟨⟨⟨⟨hr, hd⟩, _⟩, _⟩, hf⟩, hl⟩, hk⟩
+  · exact Or.inl h
+  · exact Or.inr ⟨⟨⟨⟨rulesOK_mono (le_mtuOrLongest _ _) _ hr, hd⟩, Or.inl hf⟩, hl⟩, hk⟩
+
 def rt : Handler :=
   mkHandler rdRtIn rdRtObs (fun i => rtObs i.mtu i.stream)
-    (fun i o => Pred.C13.rt i.mtu.toNat i.obus o)
+    (fun i o => rtRelaxed i.mtu.toNat i.obus o)
     (fun i => Pred.C13.rtWF i.mtu.toNat i.obus)
 
 /-! ### c13.leb, c13.lebrd -/
@@ -89,13 +133,16 @@ def obumar : Handler :=
     (fun h o => Pred.C13.mar h o)
     (fun h => hdrWF h)
 
-/-- `c13.obuwire <obu> => <bytes>` : OBU.Marshal -/
+/-- `c13.obuwire <obu> => <bytes>` : OBU.Marshal of a whole OBU.  C13 speaks of "OBU header
+    parse/marshal" only (c13.obuhdr, c13.obumar), not of this export: correspondence with the model only
+    (`Pred.C13.obuwire` is what the model is proved to satisfy, it is not demanded of the code). -/
 def obuwire : Handler :=
-  mkHandler rdObu Rd.bytes (fun o => o.wire) (fun o b => Pred.C13.obuwire o b) (fun o => hdrWF o.hdr)
+  mkHandler rdObu Rd.bytes (fun o => o.wire) (fun _ _ => true) (fun o => hdrWF o.hdr)
 
-/-- `c13.encleb <n> => <u64>` : EncodeLEB128 -/
+/-- `c13.encleb <n> => <u64>` : EncodeLEB128.  C13's "LEB128 write/read" are WriteToLeb128/ReadLeb128
+    (c13.leb), not this export: correspondence with the model only. -/
 def encleb : Handler :=
-  mkHandler Rd.u64 Rd.u64 (fun n => encodeLeb128Go 10 n 0) (fun n o => Pred.C13.encleb n o)
+  mkHandler Rd.u64 Rd.u64 (fun n => encodeLeb128Go 10 n 0) (fun _ _ => true)
     (fun n => decide (n.toNat < 2 ^ 56))
 
 /-! ### c15.av1 -/
